@@ -522,7 +522,78 @@ impl Ranking {
         }
     }
 
+    /// Three records on a thread that has matched nothing yet: a primer whose word fits the distance matrix's first capacity,
+    /// a word of 21-24 letters (the matrix grows while it is compared, with the same query word as the call before), and a
+    /// rival of the query's own length; the query starts with a cheap letter that the long word lacks, both rivals carry
+    /// vowel-for-vowel substitutions. The order of the two rivals in the full store - every insertion order, each store on a
+    /// thread of its own - is their order in the two-record stores.
+    fn growth_order_case(&self, cx: &mut Cx, lang: &'static str) {
+        let alpha: Vec<char> = gen::lower_alphabet(lang).into_iter().filter(|c| c.is_alphabetic()).collect();
+        let vowels: Vec<char> = if base_lang(lang) == "ru" { cv("аеиоу") } else { cv("aeiou") };
+        let cons: Vec<char> = alpha.iter().cloned().filter(|c| !vowels.contains(c)).collect();
+        if cons.len() < 4 {
+            return;
+        }
+        let n = cx.rng.range(17, 19);
+        let base: Vec<char> = (0..n).map(|i| if i % 3 == 1 { *cx.rng.pick(&vowels) } else { *cx.rng.pick(&cons) }).collect();
+        let mut q = vec![*cx.rng.pick(&vowels)];
+        q.extend_from_slice(&base);
+        let other_vowel = |rng: &mut Rng, c: char| -> char {
+            let mut v = *rng.pick(&vowels);
+            while v == c {
+                v = *rng.pick(&vowels);
+            }
+            v
+        };
+        let vpos: Vec<usize> = (0..base.len()).filter(|i| vowels.contains(&base[*i])).collect();
+        let a: Vec<char> = q[..q.len() - 2].to_vec();
+        let mut b = base.clone();
+        let p = *cx.rng.pick(&vpos);
+        b[p] = other_vowel(&mut cx.rng, b[p]);
+        for _ in 0..(21 - b.len().min(21)) + cx.rng.below(3) {
+            b.push(*cx.rng.pick(&alpha));
+        }
+        let mut c = q.clone();
+        for _ in 0..cx.rng.range(2, 3) {
+            let p = 1 + *cx.rng.pick(&vpos);
+            c[p] = other_vowel(&mut cx.rng, c[p]);
+        }
+        let (ra, rb, rc) = (cx.rng.below(1000), 1000 + cx.rng.below(1000), 2000 + cx.rng.below(1000));
+        let recs: Vec<Rec> = vec![(1, s(&a), ra), (2, s(&b), if cx.rng.chance(1, 2) { rb } else { rc + 1000 }), (3, s(&c), rc)];
+        let q = s(&q);
+        cx.ctx(format!("C07 growth lang={} recs={:?} q={:?}", lang, recs, q));
+        let run = |rs: Vec<Rec>, q: String| -> Vec<usize> { on_new_thread(move || St::build_sentinel(lang, &rs, 10).search_ids(&q)) };
+        let pair = run(vec![recs[1].clone(), recs[2].clone()], q.clone());
+        let pair_rev = run(vec![recs[2].clone(), recs[1].clone()], q.clone());
+        cx.eval();
+        cx.count("stores whose distance matrix grows between two rivals on a fresh thread");
+        if pair != pair_rev {
+            cx.fail("pair-order-differs", json!({"lang": lang, "query": q, "pair": [recs[1], recs[2]], "result": pair, "result_when_inserted_the_other_way_round": pair_rev}));
+            return;
+        }
+        if pair.len() == 2 {
+            cx.count("such stores in which both rivals are hits");
+            cx.key(hparts(&[lang, &format!("{:?}", recs), &q, "growth"]));
+        }
+        for perm in [[0usize, 1, 2], [1, 0, 2], [0, 2, 1], [2, 1, 0], [1, 2, 0], [2, 0, 1]].iter() {
+            let rs: Vec<Rec> = perm.iter().map(|i| recs[*i].clone()).collect();
+            let full = run(rs.clone(), q.clone());
+            cx.eval();
+            cx.count("pair stores");
+            cx.count("permuted stores");
+            let rivals: Vec<usize> = full.iter().cloned().filter(|id| *id != 1).collect();
+            if rivals != pair {
+                cx.fail("pair-order-differs", json!({"lang": lang, "query": q, "full_store_inserted": rs, "full_store_result": full, "pair_inserted": [recs[1], recs[2]], "pair_result": pair,
+                    "note": "every store was built and searched on a thread of its own"}));
+                return;
+            }
+        }
+    }
+
     fn order(&self, cx: &mut Cx, lang: &'static str) {
+        if (cx.idx / 12) % 10 == 7 && cx.tier != Tier::Miri {
+            return self.growth_order_case(cx, lang);
+        }
         let corpus = corpus_recs();
         let similar = cx.rng.chance(1, 2);
         let n = if similar { cx.rng.range(2, 8) } else { cx.rng.range(2, 30) };
